@@ -53,8 +53,9 @@ TRUSTED = [
     "with its fallback recovery, disconnect_run, and signal propagation (direct calls without a running parent, "
     "the FIFO signal queue under a running parent); node bodies are 'log the call, maybe raise'; data readiness "
     "is not modelled (every input of the harness nodes has a default)",
-    "iteration order of the closure set and the tie-breaking of toposort_flatten are observed on the "
-    "implementation (module-attribute wrappers that call the originals) and checked by the model for validity",
+    "the closure members and the execution order handed to the model are read off the live data connections: the "
+    "topological enumeration whose ties are broken by the observed execution (no library internals are wrapped "
+    "except Node.on_run and Node._on_cache_hit); the model checks both for validity",
     "label + str(id(node)) is injective on live nodes; caching switched off on every node (C05's subject)",
     "a macro pulled over as a sibling runs as one unit (model: one node that fails iff something inside fails); "
     "targets are leaf nodes",
@@ -203,7 +204,7 @@ class Instr:
         import pyiron_workflow.topology as tp
 
         self.nd, self.tp = nd, tp
-        self.o_on_run, self.o_tree, self.o_flat = nd.Node.on_run, nd.get_nodes_in_data_tree, tp.toposort_flatten
+        self.o_on_run = nd.Node.on_run
         self.o_hit = nd.Node._on_cache_hit
         me = self
 
@@ -219,29 +220,12 @@ class Instr:
                 raise Runaway()  # backstop: a signal cycle would keep the real scheduler busy for ever
             return me.o_on_run(self_, *a, **k)
 
-        def tree(node):
-            res = me.o_tree(node)
-            me.cur = me.sc.gid.get(id(node), -1)
-            me.obs[me.cur] = [[me.sc.gid.get(id(x), -1) for x in res], []]
-            return res
-
-        def flat(digraph, *a, **k):
-            res = me.o_flat(digraph, *a, **k)
-            bylabel = {n.label: g for g, n in me.sc.node.items()}
-            if me.cur in me.obs:
-                me.obs[me.cur][1] = [bylabel.get(l, -1) for l in res]
-            return res
-
         nd.Node.on_run = on_run
-        nd.get_nodes_in_data_tree = tree
-        tp.toposort_flatten = flat
         return self
 
     def __exit__(self, *exc):
         self.nd.Node.on_run = self.o_on_run
         self.nd.Node._on_cache_hit = self.o_hit
-        self.nd.get_nodes_in_data_tree = self.o_tree
-        self.tp.toposort_flatten = self.o_flat
         return False
 
 
@@ -323,6 +307,34 @@ def unit_log(exec_log, t, parent, composites):
     return out
 
 
+def _derive_obs(sc, t, parents, exec_log):
+    """
+    per level target: [members of its closure, an execution order]. Both are read off the live data connections,
+    not off library internals: the order is THE topological enumeration of the closure whose ties are broken by
+    when a node was seen to execute (then by number) — if the implementation executed in a valid order this is its
+    order, if it did not the model's log differs from the implementation's.
+    """
+    deps = live_deps(sc)
+    par = live_parent(sc)
+    pos = {}
+    for k, g in enumerate(exec_log):
+        pos.setdefault(g, k)
+    out = {}
+    for a in _levels(t, parents, par):
+        cl, cyc = _reach(deps, a)
+        if cyc or any(x < 0 for x in cl):
+            continue
+        left, done, chain = set(cl), set(), []
+        while left:
+            ready = [x for x in left if all(d in done for d in deps.get(x, []) if d in cl)]
+            x = min(ready, key=lambda g: (pos.get(g, 10**9), g))
+            chain.append(x)
+            done.add(x)
+            left.discard(x)
+        out[str(a)] = [sorted(cl), chain]
+    return out
+
+
 def _if_class():
     from pyiron_workflow.nodes.standard import If
 
@@ -399,7 +411,7 @@ def run_impl(case):
                 "exec": list(ins.exec_log),
                 "hits": list(ins.hits),
                 "calls": [c[0] for c in nodes.CALL_LOG],
-                "obs": {str(k): v for k, v in ins.obs.items()},
+                "obs": _derive_obs(sc, t, bool(parents), ins.exec_log),
                 "before": before,
                 "after": snapshot(sc),
                 "vals_before": vals_before,
